@@ -110,6 +110,10 @@ def build(case, base):
         return OverwriteClassesWrapper(base, classes=torch.tensor(tbl) if a["tensor"] else tbl)
     if k == "ag":
         from kappadata.wrappers.dataset_wrappers.allgather_class_wrapper import AllgatherClassWrapper
+        if a.get("over") == "semi":
+            # stacked on another label wrapper (some samples unlabeled): bulk and per-sample accessor still agree
+            from kappadata.wrappers.sample_wrappers.semi_wrapper import SemiWrapper
+            base = SemiWrapper(dataset=base, semi_percent=0.5, seed=3)
         return AllgatherClassWrapper(base, world_size=a["W"])
     if k == "pl":
         from kappadata.wrappers.dataset_wrappers.kd_pseudo_label_wrapper import KDPseudoLabelWrapper
@@ -699,6 +703,8 @@ def run(prop, tier, seed):
         # label storage handed out by the wrapped dataset's bulk accessor; class count changing under encoders
         if r.random() < 0.3:
             c["a"]["store"] = r.choice(["tensor", "numpy"])
+        if c["kind"] == "ag" and c["n"] >= 2 and r.random() < 0.4:
+            c["a"]["over"] = "semi"
         if c["kind"] in ("oh", "ls") and r.random() < 0.4:
             c["a"]["c0"] = r.choice([c["C"] + 1, c["C"] + 3, max(1, c["C"] - 1)])
             if c["a"]["c0"] == c["C"]:
@@ -711,7 +717,7 @@ def run(prop, tier, seed):
                    sn=a.get("sn", 0) if c["kind"] == "ls" else 0, sd=a.get("sd", 1) if c["kind"] == "ls" else 1)
         t = dict(id=tid, cfg=cfg, ev=ev)
         complete = len(ev) == 7 and all(e["err"] == "" for e in ev) and ev[1]["form"] in ("int", "vec", "bin")
-        par = desc_par(c, w, ev) if complete else None
+        par = desc_par(c, w, ev) if complete and not c["a"].get("over") else None
         if par is not None:
             t["cfg"]["par"] = par
         t["complete"] = complete
